@@ -873,3 +873,28 @@ VARIANTS += [
  dict(name='second-store-outside-loop', file=P, expect='flagged(parser/)',
       find='\t// Verify mandatory fields are present\n', replace='\tif attrKeyValue["O"] == "" {\n\t\tattrKeyValue["O"] = attrKeyValue["OU"]\n\t}\n\t// Verify mandatory fields are present\n'),
 ]
+
+# -- worker of the parser's own shape: the exported parser only adds the mandatory test
+_WORKER_HEAD = 'func ParseDistinguishedName(name string) (map[string]string, error) {\n'
+_WORKER_SPLIT = '\t// Verify mandatory fields are present\n'
+_WORKER_NEW = '''	return attrKeyValue, nil
+}
+
+// ParseDistinguishedName parses a DN name and validates Notary Project rules
+func ParseDistinguishedName(name string) (map[string]string, error) {
+	attrKeyValue, err := parseRDNAttributes(name)
+	if err != nil {
+		return nil, err
+	}
+	// Verify mandatory fields are present
+'''
+VARIANTS += [
+ dict(name='benign-parser-worker-same-shape', expect='silent',
+      edits=[(P, _WORKER_HEAD, 'func parseRDNAttributes(name string) (map[string]string, error) {\n'), (P, _WORKER_SPLIT, _WORKER_NEW)]),
+ dict(name='parser-worker-error-dropped', expect='flagged(parser/)',
+      edits=[(P, _WORKER_HEAD, 'func parseRDNAttributes(name string) (map[string]string, error) {\n'),
+             (P, _WORKER_SPLIT, _sub(_WORKER_NEW, '\tattrKeyValue, err := parseRDNAttributes(name)\n\tif err != nil {\n\t\treturn nil, err\n\t}\n', '\tattrKeyValue, _ := parseRDNAttributes(name)\n\tif attrKeyValue == nil {\n\t\tattrKeyValue = map[string]string{}\n\t}\n'))]),
+ dict(name='parser-worker-hex-test-dropped', expect='flagged(parser/no-hex-value)',
+      edits=[(P, _WORKER_HEAD, 'func parseRDNAttributes(name string) (map[string]string, error) {\n'), (P, _WORKER_SPLIT, _WORKER_NEW),
+             (P, '\tif strings.Contains(name, "=#") {\n', '\tif strings.Contains(name, "=#") && false {\n')]),
+]
